@@ -391,6 +391,11 @@ func (t *Tree) internalDelete(subpath []string, condition func(interface{}) bool
 			// An empty node holds nothing to delete.
 			return false, nil
 		default:
+			// A leaf only matches when no path elements remain past it, the
+			// same way Query treats a glob that runs past a leaf.
+			if len(subpath) != 0 {
+				return false, nil
+			}
 			if condition(t.leafBranch) {
 				// The second parameter is an empty path that will be filled as recursion
 				// unwinds for this leaf that will be deleted in its parent.
